@@ -107,7 +107,7 @@ func check(c Case) (sig string, err error) {
 
 func genCase(t *rapid.T) (Case, world.Features) {
 	s := world.GenSpec(t)
-	q, feat := world.GenQuery(t, s, world.GenOpts{Directives: true})
+	q, feat := world.GenQuery(t, s, world.GenOpts{Directives: true, FragOnUnion: true})
 	m := world.Modes{}
 	for _, o := range s.Objects {
 		for _, f := range o.Fields {
@@ -131,7 +131,7 @@ func run(t interface{ Fatalf(string, ...interface{}) }, test string, c Case, f w
 	}
 	nT, nF := truthValues(c.Query)
 	cls := map[string]bool{"spread-diff-conds": f.SpreadDiffConds > 0, "both-directives": f.DirBoth > 0, "dir-dup-alias": f.DirDupAlias > 0,
-		"dir-under-union": f.DirUnderUnion > 0, "dir-on-spread": f.DirOnSpread > 0, "mixed-truth": nT > 0 && nF > 0, "var-conditions": len(c.Query.Vars) > 0}
+		"dir-under-union": f.DirUnderUnion > 0, "dir-on-union-frag": f.DirOnUnionFrag > 0, "dir-on-spread": f.DirOnSpread > 0, "mixed-truth": nT > 0 && nF > 0, "var-conditions": len(c.Query.Vars) > 0}
 	var labels []string
 	for k, v := range cls {
 		if v {
@@ -139,7 +139,7 @@ func run(t interface{ Fatalf(string, ...interface{}) }, test string, c Case, f w
 		}
 	}
 	sort.Strings(labels)
-	nt := nT > 0 && nF > 0 && (cls["spread-diff-conds"] || cls["both-directives"] || cls["dir-dup-alias"] || cls["dir-under-union"])
+	nt := nT > 0 && nF > 0 && (cls["spread-diff-conds"] || cls["both-directives"] || cls["dir-dup-alias"] || cls["dir-under-union"] || cls["dir-on-union-frag"])
 	sb, _ := json.Marshal(c.Spec)
 	vb, _ := json.Marshal(c.Query.Values)
 	rec.Case(string(sb)+c.Text+string(vb), nt, labels...)
@@ -187,6 +187,10 @@ func TestPinned(t *testing.T) {
 		{Sels: []world.Sel{F("allO1", with(F("name"), lit("skip", true)), F("name"), F("id"))}},
 		// directives on union-member fragments (fixed 759d0a6)
 		{Sels: []world.Sel{F("allU1", F("__typename"), with(I("O1", F("name")), lit("skip", true)), I("O1", F("id")), with(I("O2", F("label")), lit("include", false)))}},
+		// directives on a fragment typed on the union itself, inline and as a named fragment spread twice
+		{Sels: []world.Sel{F("allU1", F("__typename"), with(I("U1", I("O1", F("name")), I("O2", F("label"))), lit("skip", true)), I("O1", F("id")))}},
+		{Sels: []world.Sel{F("allU1", F("__typename"), with(S("FU"), lit("include", false)), I("O1", F("id"))), F("allU2", F("__typename")), with(F("allU1", S("FU")), lit("skip", false))},
+			Frags: []world.FragDef{{Name: "FU", On: "U1", Sels: []world.Sel{I("O1", F("name")), I("O2", F("label"))}}}},
 	}
 	for i, q := range qs {
 		m := world.Modes{}
